@@ -61,7 +61,8 @@ structure Resp where
 deriving Repr
 
 structure StreamSt where
-  /-- unresolved items in snapshot order -/
+  /-- unresolved items in the order in which a dropped `FuturesUnordered` releases them: its list of all
+  tasks from the head; a task is linked at the head when it is pushed and again whenever a poll of it returns Pending -/
   items : List Nat
   /-- ready-to-run queue of the `FuturesUnordered` -/
   ready : List Nat
@@ -209,7 +210,11 @@ def Api.spollLoop (a : Api) (sid : Nat) : Nat → Api × Res
             match (gop a2.s w .value).2 with
             | .optVal (some _) => (a2, .item w hd.key)
             | _ => Api.spollLoop (a2.dropGuard w).1 sid fuel
-          | .bool false => Api.spollLoop a1 sid fuel
+          | .bool false =>
+            let a2 := match a1.streams.lookup sid with
+              | some st1 => setSt a1 { st1 with items := w :: st1.items.erase w }
+              | none => a1
+            Api.spollLoop a2 sid fuel
           | o => (a1, .out o)
         | none => (a0, .bad)
 
@@ -240,7 +245,7 @@ def Api.exec (a : Api) (c : Call) : Api × Resp :=
     if (a.streams.lookup sid).isSome then (a, ⟨[], .bad⟩) else
     let (s1, o) := step a.s (.snapshot (List.range' h0 supplyLen))
     match o with
-    | .list hs => ({ s := s1, streams := (sid, ⟨hs, hs⟩) :: a.streams }, ⟨[], .handles (hs.map fun h => (h, keyOf s1 h))⟩)
+    | .list hs => ({ s := s1, streams := (sid, ⟨hs.reverse, hs⟩) :: a.streams }, ⟨[], .handles (hs.map fun h => (h, keyOf s1 h))⟩)
     | o => ({ a with s := s1 }, ⟨[], .out o⟩)
   | .spoll sid =>
     let n := match a.streams.lookup sid with | some st => st.ready.length + 1 | none => 1
@@ -250,8 +255,7 @@ def Api.exec (a : Api) (c : Call) : Api × Resp :=
     match a.streams.lookup sid with
     | some st =>
       let a0 := { a with streams := a.streams.filter fun (i, _) => i ≠ sid }
-      -- `FuturesUnordered` drops its remaining tasks newest first
-      let a1 := st.items.reverse.foldl (fun a h => (a.cancelHandle h).1) a0
+      let a1 := st.items.foldl (fun a h => (a.cancelHandle h).1) a0
       (a1, ⟨[], .ok⟩)
     | none => (a, ⟨[], .bad⟩)
   | .into => (a, ⟨[], .out (intoEntries a.s).2⟩)
